@@ -4,6 +4,7 @@
    with the observed post-state; the executable statements of the properties selected by
    [t_specs] are evaluated on the implementation's observations. *)
 From Coq Require Import NArith List Bool.
+From DudV Require Import Model.Render.
 From DudV Require Import Base.Bytes Base.Blake3 Base.Json Base.GoPath Model.Fs Model.Cache Model.Stage Model.Index Model.System.
 Import ListNotations.
 Local Open Scope N_scope.
@@ -419,7 +420,11 @@ Definition spec_human (c : tcase) : bool :=
   | OStatus l =>
     forallb (fun pt =>
       match flat_map (fun s => match alookup (fst pt) (ss_arts (snd s)) with Some st => [st] | None => [] end) l with
-      | st :: _ => Bool.eqb (human_ok (snd pt)) (st_cm st)
+      | st :: _ =>
+        (* the text is exactly what the model of Status.String() (Model/Render.v) makes of the
+           status the same command reports with --debug, and it reads "up to date" iff that
+           status says the contents match *)
+        beqb (render st) (snd pt) && Bool.eqb (human_ok (snd pt)) (st_cm st)
       | [] => true
       end) (t_text c)
   | _ => true
